@@ -255,8 +255,8 @@ def fault_sweep(r, nbase, kinds=("rej", "abe"), probe=False, kind="write", nk=9,
 COMMON_ASSUME = ["environment contract N1-N6 (DESIGN 3.3): CLN datastore semantics (modes, generation), parts only created by a running pay command, part status monotone, "
                  "pay answers 'failed' without warning only when no part is pending/complete, a part completes only with a preimage of its hash",
                  "SHA-256 and BOLT11 parsing/signature recovery are oracles (the harness computes them with the plugin's own crates)",
-                 "one model step = one environment event + run-to-quiescence of a single-threaded runtime; finer interleavings of the multi-threaded runtime are covered by the reduction argument of DESIGN 3.2, not by Coq",
-                 "injected errors on READ rpcs are the known-finding class kf_read_error (thorough tier only)"]
+                 "one model step = one task segment (an environment event and what the task it wakes does until its next await); the lifecycle's look at its ready/fail queues is its own event (EvPoll), so HTLCs overtaking a lagging lifecycle are in the model; the harness shows the HTLC segment and the poll back to back, or (burst events) several handle_htlc segments queued on the held table lock followed by the polls; other interleavings of the multi-threaded runtime rest on the reduction argument of DESIGN 3.2, not on Coq",
+                 "injected errors on READ rpcs (thorough tier only, plus the committed witnesses) fall in the known-finding classes: kf_read_error for C02/C06 (any read), kf_pay_wait_read_error for C05/C08 (only reads of the wait_payment inside pay(); read errors elsewhere do not excuse a violation)"]
 BASE_RULE = ("scripted payment stories (11 ways a pay can end x 1-3 HTLC pieces x rejecting HTLC kinds/positions), the same stories with a whole-node crash injected before "
              "every k-th primitive event followed by replay of the unanswered HTLCs and a drain, with a rejected / applied-but-error datastore write at every write position, "
              "and random walks over enabled events (weights in harness/src/cmd_system.rs); every trace is replayed through the Coq model (correspondence) and through the "
